@@ -46,6 +46,17 @@ type Invoice struct {
 	State      string // open, settled
 	Payreq     string
 	SettledAt  time.Duration
+	ClnLabel   string // tier 3: the label lightningd knows the invoice by
+}
+
+// invoiceByLabel finds a payee's invoice by its lightningd label.
+func (l *SimLN) invoiceByLabel(payee int, label string) *Invoice {
+	for _, k := range rt.SortedKeys(l.Invoices) {
+		if inv := l.Invoices[k]; inv.Payee == payee && inv.ClnLabel == label {
+			return inv
+		}
+	}
+	return nil
 }
 
 type Payment struct {
@@ -225,6 +236,20 @@ type PayArgs struct {
 	Scid    string
 	MaxCLTV uint32
 	Lnd     *routerrpc.SendPaymentRequest
+	Cln     *ClnRoute                // tier 3: the route of the sendpay call the real CLN adapter emitted
+	Async   bool                     // return as soon as the HTLC is on its way (sendpay); Wait then blocks for its fate
+	Wait    func() (string, error)   // set by PayVia when Async
+}
+
+// ClnRoute: the single hop of a sendpay route.
+type ClnRoute struct {
+	Hops       int
+	Id         string // node id of the first hop
+	Channel    string
+	AmountMsat uint64
+	Delay      uint32
+	ReqMsat    uint64 // amount_msat of the request itself
+	Parts      uint64 // partid
 }
 
 func (l *SimLN) PayVia(n *Node, a *PayArgs) (string, error) {
@@ -234,6 +259,7 @@ func (l *SimLN) PayVia(n *Node, a *PayArgs) (string, error) {
 	l.payIdx++
 	idx := l.payIdx
 	po := &PayObs{Idx: idx, Payer: n.ID, Payreq: payreq, Scid: scid, Fn: fn, MaxCLTV: maxCLTV, BtcHeight: w.BTC.Height(), LHeight: w.LBTC.Height()}
+	po.Cln = a.Cln
 	if a.Lnd != nil {
 		po.Lnd = &LndPayReq{OutgoingChanIds: append([]uint64(nil), a.Lnd.OutgoingChanIds...), OutgoingChanId: a.Lnd.OutgoingChanId, MaxParts: a.Lnd.MaxParts, CltvLimit: a.Lnd.CltvLimit,
 			FeeLimitMsat: a.Lnd.FeeLimitMsat, AmtMsat: a.Lnd.AmtMsat, Amt: a.Lnd.Amt, TimeoutSeconds: a.Lnd.TimeoutSeconds, HasDest: len(a.Lnd.Dest) > 0, LastHopPubkey: len(a.Lnd.LastHopPubkey) > 0}
@@ -276,7 +302,15 @@ func (l *SimLN) PayVia(n *Node, a *PayArgs) (string, error) {
 		return finish("", errors.New("channel not found"))
 	}
 	peer := ch.peerOf(n.ID)
+	if a.Cln != nil && (a.Cln.Hops != 1 || a.Cln.Id != w.Nodes[peer].Pubkey) {
+		// sendpay along a route that does not start with this channel's peer
+		return finish("", errors.New("payment failure unknown_next_peer"))
+	}
 	if body.D != w.Nodes[peer].Pubkey {
+		if a.Cln != nil {
+			// the HTLC reaches the channel peer, which does not know this payment hash
+			return finish("", errors.New("payment failure incorrect_or_unknown_payment_details"))
+		}
 		if a.Lnd != nil {
 			// lnd would look for a route through the first hop to another node; the simulated
 			// network has direct channels only
@@ -288,6 +322,16 @@ func (l *SimLN) PayVia(n *Node, a *PayArgs) (string, error) {
 	permitted := uint32(body.C + 1)
 	if n.Flavor == "lnd" {
 		permitted = uint32(body.C + 3 + 1)
+	}
+	if a.Cln != nil {
+		// the real route: one hop to Id over Channel with the given delay; lightningd sends
+		// what it is told, the HTLC's CLTV is now + delay
+		permitted = a.Cln.Delay
+		if body.C < 0 || uint32(body.C) > a.Cln.Delay {
+			// the final node refuses an HTLC whose expiry is below the invoice's min_final_cltv
+			return finish("", errors.New("payment failure final_incorrect_cltv_expiry"))
+		}
+		maxCLTV = 0
 	}
 	if a.Lnd != nil {
 		// the real request: lnd routes only within cltv_limit (0 = its own maximum of 2016
@@ -372,25 +416,30 @@ func (l *SimLN) PayVia(n *Node, a *PayArgs) (string, error) {
 	default:
 		w.Sim.After(lat, "ln", fmt.Sprintf("resolve#%d", idx), func() { l.resolve(p) })
 	}
-	// block until resolved or released
-	if n.Flavor == "cln" {
-		// glightning's RPC timeout (clightning.go: SetTimeout(40)): waitsendpay
-		// gives up after 40s although the HTLC is still in flight.
-		if !p.Wake.WaitTimeout("ln.paywait", 40*time.Second) {
-			w.Probe("ln:cln-rpc-timeout-while-pending")
-			return finish("", errors.New("rpc timeout waiting for waitsendpay"))
-		}
-	} else {
+	wait := func() (string, error) {
+		// block until resolved or released. (Both adapters wait without a deadline of their
+		// own: lnd's payment stream stays open, and glightning's WaitSendPay bypasses the
+		// client's 40 s request timeout. An earlier version of this model cut the CLN wait
+		// off after 40 s; the adapter's code says otherwise.)
 		p.Wake.Wait("ln.paywait")
+		if !p.Done.Fired() {
+			return finish("", errors.New(p.CallerErr))
+		}
+		if p.State == "settled" {
+			return finish(p.Preimage, nil)
+		}
+		return finish("", fmt.Errorf("payment failure %s", p.Reason))
 	}
-	if !p.Done.Fired() {
-		return finish("", errors.New(p.CallerErr))
+	if a.Async {
+		// sendpay / waitsendpay (tier 3): the caller comes back for the result
+		a.Wait = wait
+		return "", ErrPayStarted
 	}
-	if p.State == "settled" {
-		return finish(p.Preimage, nil)
-	}
-	return finish("", fmt.Errorf("payment failure %s", p.Reason))
+	return wait()
 }
+
+// ErrPayStarted: PayVia with Async set has put the HTLC on its way; PayArgs.Wait blocks for its fate.
+var ErrPayStarted = errors.New("payment started")
 
 // resolve is the payee side deciding about an HTLC.
 func (l *SimLN) resolve(p *Payment) {
